@@ -309,7 +309,9 @@ def h_regions_list(m):
     c = lambda i: CirclePixelRegion(PixCoord(float(i), 0.0), 1.0)
     items = [c(0), c(1)]
     for bad in ('x', 5, None, [c(3)], (c(4),)):
-        for ename, f in (('constructor', lambda r: Regions([c(9), bad])), ('append', lambda r: r.append(bad)),
+        for ename, f in (('constructor', lambda r: Regions([c(9), bad])), ('constructor(tuple)', lambda r: Regions((c(9), bad))),
+                         ('constructor(generator)', lambda r: Regions(x for x in [c(9), bad])), ('constructor(iterator)', lambda r: Regions(iter([bad, c(9)]))),
+                         ('constructor(map)', lambda r: Regions(map(lambda x: x, [c(9), bad]))), ('append', lambda r: r.append(bad)),
                          ('extend', lambda r: r.extend([c(7), bad])), ('extend-first', lambda r: r.extend([bad, c(7)])),
                          ('insert', lambda r: r.insert(0, bad)), ('insert-end', lambda r: r.insert(5, bad))):
             regs = Regions(list(items))
